@@ -20,6 +20,7 @@ RULE = (
 ASSUMPTIONS = [
     'steps (including the injected drift) stay below 0.45 cell so that minimum-image steps are the true steps',
     'tolerances: residual drift 1e-12, positions 1e-9 (circular)',
+    'collections of names are lists / tuples / sets (also with repeated names); a numpy array of names is rejected by drift() with a loud ValueError (truth value of an array), which is outside "string or collection" as the library annotates it and not a silent wrong result',
 ]
 N_CASES = {'quick': 400, 'thorough': 100000}
 BUDGET_S = {'quick': 200, 'thorough': 3600}
@@ -54,6 +55,12 @@ def as_form(rng, names, form):
         return tuple(names)
     if form == 'set':
         return set(names)
+    if form == 'repeated':
+        # a collection that names a species more than once, with unequal multiplicities (e.g. a per-atom list
+        # [sp.symbol for sp in structure.species if ...]) and in arbitrary order
+        out = [n for n in names for _ in range(int(rng.integers(1, 4)))]
+        out = [out[i] for i in rng.permutation(len(out))]
+        return out if rng.integers(2) else tuple(out)
     return list(names)
 
 
@@ -91,7 +98,7 @@ def run_unit(unit, rng, ctx):
     mode = str(rng.choice(['fixed', 'floating', 'none'], p=[0.4, 0.45, 0.15]))
     k = int(rng.integers(1, len(symbols)))
     chosen = [str(x) for x in rng.choice(symbols, size=k, replace=False)]
-    form = str(rng.choice(['str', 'list', 'tuple', 'set']))
+    form = str(rng.choice(['str', 'list', 'tuple', 'set', 'repeated']))
     if mode == 'fixed':
         ref_symbols = set(chosen)
         kwargs = {'fixed_species': as_form(rng, chosen, form)}
